@@ -68,6 +68,10 @@ type c35Scenario struct {
 	OOO             bool
 	Hash            metadata.HashFunc
 	Conc            int
+	// RelabelAfterFault (nil = no change): the external labels change right after the injected crash
+	// (the restarted instance is configured with them) or failed operation (SetLabels on the running
+	// instance) and stay until the next phase sets its own.
+	RelabelAfterFault map[string]string
 }
 
 func c35RenderLabels(m map[string]string) string {
@@ -93,6 +97,9 @@ func (sc c35Scenario) render() string {
 		sb.WriteString(b.render())
 	}
 	sb.WriteString("]")
+	if sc.RelabelAfterFault != nil {
+		fmt.Fprintf(&sb, " relabelAfterFault=%s", c35RenderLabels(sc.RelabelAfterFault))
+	}
 	for i, p := range sc.Phases {
 		fmt.Fprintf(&sb, " phase%d{labels=%s restart=%v shipperfile=%s new=%v compactorRemoved=%v}", i, c35RenderLabels(p.Labels), p.Restart, p.Tamper, p.NewBlocks, p.Compactor)
 	}
@@ -241,6 +248,7 @@ func c35RunHistory(sc c35Scenario, fault c35Fault, known bool, work string) (out
 		), nil
 	}
 	present := map[int]bool{}
+	relabelled := false
 	var sh *shipper.Shipper
 	for pi, ph := range sc.Phases {
 		// --- environment changes before the phase (not under test)
@@ -344,6 +352,11 @@ func c35RunHistory(sc c35Scenario, fault c35Fault, known bool, work string) (out
 					return
 				}
 				// restart: a new process = new Shipper on the same directory and bucket, no more faults.
+				if sc.RelabelAfterFault != nil {
+					curLset = labels.FromMap(sc.RelabelAfterFault)
+					curLabels = c35RenderLabels(sc.RelabelAfterFault)
+					classes["labels-changed-after-fault"] = true
+				}
 				ob = mkBucket(c35Fault{})
 				s, err := mkShipper(ob)
 				if err != nil {
@@ -382,6 +395,13 @@ func c35RunHistory(sc c35Scenario, fault c35Fault, known bool, work string) (out
 			}
 			if run.Err != nil {
 				lastErr = run.Err
+				if sc.RelabelAfterFault != nil && fault.FailOp > 0 && out.FaultHit && !relabelled {
+					relabelled = true
+					curLset = labels.FromMap(sc.RelabelAfterFault)
+					curLabels = c35RenderLabels(sc.RelabelAfterFault)
+					sh.SetLabels(curLset)
+					classes["labels-changed-after-fault"] = true
+				}
 				continue
 			}
 			// (a) a successful Sync: every pending block is completely in the bucket
@@ -531,6 +551,9 @@ func c35GenScenario(rt *rapid.T, tmpl string) c35Scenario {
 			}
 		}
 		sc.Phases = append(sc.Phases, ph)
+	}
+	if rapid.Bool().Draw(rt, "relabelAfterFault") {
+		sc.RelabelAfterFault = c35GenLabels(rt, "labelsAfterFault")
 	}
 	return sc
 }
